@@ -18,12 +18,14 @@ import (
 
 func init() {
 	h.Register(&h.Prop{ID: "C04", Gen: genC04, Exec: withPrim(map[string]h.ExecFn{
-		"tlb.spec":   exTlbSpec,
-		"tlb.extmsg": exExtMsg,
-		"tlb.enc":    exTlbEnc,
-		"tlb.dec":    exTlbDec,
-		"go.redec":   goReDecode,
-		"go.rt":      goRoundTrip,
+		"tlb.spec":     exTlbSpec,
+		"tlb.extmsg":   exExtMsg,
+		"tlb.enc":      exTlbEnc,
+		"tlb.parsetag": exParseTag,
+		"tlb.fieldtag": exFieldTag,
+		"tlb.dec":      exTlbDec,
+		"go.redec":     goReDecode,
+		"go.rt":        goRoundTrip,
 	})})
 }
 
@@ -85,7 +87,7 @@ func genC04(g *h.G) {
 	gc := tlbx.NewGenCtx(g.Rng, tlbU)
 	gc.ModelOnly = true
 	// (a) primitives: EXHAUSTIVE over the widths, boundary values plus random ones for each width
-	perWidth := g.Scale(3, 60)
+	perWidth := g.Scale(3, 300)
 	emitInt := func(goType, st string, vals []*big.Int) {
 		for _, x := range vals {
 			g.Emit("tlb.spec", goType, st, x.String())
@@ -149,7 +151,7 @@ func genC04(g *h.G) {
 		g.Emit("tlb.spec", "tlb.Grams", "(:N|:Grams)", fmt.Sprint(x))
 	}
 	// (b) structures with a transcribed schema: random in-domain values
-	perStruct := g.Scale(150, 4000)
+	perStruct := g.Scale(150, 12000)
 	for _, st := range specStructs {
 		tt := tlbLookup(st[0])
 		for i := 0; i < perStruct; i++ {
@@ -200,6 +202,7 @@ func genC04(g *h.G) {
 		g.Emit("tlb.extmsg", fmt.Sprint(wc), hex.EncodeToString(addr), tlbx.CellText(body), init, fee.String())
 	}
 	// (d) real chain data: every transaction / message / state-init of the test blocks re-encoded; hashes compared
+	genTags(g)
 	genReal(g)
 	for k, n := range gc.Cov {
 		g.Counters["gen_"+k] += n
